@@ -84,6 +84,7 @@ type Case struct {
 	UseSub   int       `json:"useSub,omitempty"`   // >0: pass node[UseSub] (a non-root) instead of the root
 	PreOps   []string  `json:"preOps,omitempty"`   // From-Root only: operations run first on the SAME node tree, results ignored
 	LateProg []AddStep `json:"lateProg,omitempty"` // From-Root walkiter only: Add calls made after the iterator was created and before it is ranged over
+	MidProg  []AddStep `json:"midProg,omitempty"`  // From-Root only: Add calls made after the PreOps and before the operation under test
 	Opts     Opts      `json:"opts"`
 	FS       *FSSpec   `json:"fs,omitempty"`
 	Faults   Faults    `json:"faults"`
